@@ -62,6 +62,14 @@ CLAIMED["C05"] = dict(
     note="Out of the claim: real AES-CBC/CMAC/SHA/ECDSA (stubbed), curve membership of keys, config-file plumbing, DevHSM.",
     ref="DESIGN.md section 3 C05")
 
+CLAIMED["C03"] = dict(
+    technique="symbolic execution of the real RKHT / Rot / CertBlockV1 / CertBlockV21 / RootKeyRecord / IskCertificate code "
+              "(symx) over stub keys with symbolic numbers and a UF hash + z3 QF_BV: every tool path must hash the "
+              "reference byte string",
+    note="Out of the claim: keys supplied as PEM/DER/certificate files (ASN.1 inside cryptography), curve membership, "
+         "AHAB/HAB SRK tables; assumes SHA-256 does not collide on the root keys where the signer is looked up by hash.",
+    ref="DESIGN.md section 3 C03")
+
 NOT_APPLICABLE = {
     "C18": "quantifies over OS-level crash points of a pickle file and over process schedules around a FileLock; the "
            "deciding code is pickle (C) / the file system / the scheduler - no SPSDK arithmetic or layout to encode; "
